@@ -50,7 +50,9 @@ func (d *SimDB) mut(name string, a common.Address, key, pre, post []byte) {
 func (d *SimDB) CreateAccount(a common.Address) {
 	pre := d.StateDB.GetBalance(a).Bytes()
 	d.StateDB.CreateAccount(a)
-	d.mut("CreateAccount", a, nil, pre, d.StateDB.GetBalance(a).Bytes())
+	// an account (re)creation carries the balance over; it is logged as a balance mutation so
+	// that the rollback model sees one location per account balance
+	d.mut("Balance", a, nil, pre, d.StateDB.GetBalance(a).Bytes())
 }
 
 func (d *SimDB) SubBalance(a common.Address, v *big.Int) {
